@@ -117,9 +117,10 @@ RemovePod(C, u, p) ==
     IN IF DOMAIN i2.pods = {} /\ n # "" THEN [C1 EXCEPT !.allocIdx[n] = @ \ {u}] ELSE C1
 cAddPods(C, u, p, req) == AddPod(C, u, p, req)                                     \* caller checks known / terminating
 cDeletePods(C, u, p)   == LET C0 == ForgetOrphan(C, u, p) IN IF u \in DOMAIN C0.cinfo THEN RemovePod(C0, u, p) ELSE C0
-cUpdatePod(C, oldU, newU, hasOld, p, req) ==
-    LET C1 == IF hasOld /\ oldU \in DOMAIN C.cinfo THEN RemovePod(C, oldU, p) ELSE C
-        C2 == IF hasOld THEN ForgetOrphan(C1, oldU, p) ELSE C1
+\* (the old object is removed by ITS uid, the new one added by its own: they differ when the update replaces a pod)
+cUpdatePod(C, oldU, newU, hasOld, oldP, p, req) ==
+    LET C1 == IF hasOld /\ oldU \in DOMAIN C.cinfo THEN RemovePod(C, oldU, oldP) ELSE C
+        C2 == IF hasOld THEN ForgetOrphan(C1, oldU, oldP) ELSE C1
     IN IF newU \in DOMAIN C2.cinfo THEN AddPod(C2, newU, p, req)
        ELSE IF newU # "" /\ FixOrphan THEN [C2 EXCEPT !.orph = WithKey(@, newU, WithKey(Orphans(C2, newU), p, req))]
        ELSE C2
@@ -129,14 +130,15 @@ hROnAdd(C, u, o)    == IF Active(o) THEN cUpsert(C, u, o) ELSE C
 hROnUpdate(C, u, o) == IF Active(o) THEN cUpsert(C, u, o) ELSE IF Terminated(o) THEN cIfExists(C, u, o) ELSE C
 hROnDelete(C, u, o) == cIfExists(C, u, IF o.node # "" /\ o.phase = "Available" THEN [o EXCEPT !.phase = "Failed"] ELSE o)
 hPodGone(C, po) == IF po.ra # "" THEN cDeletePods(C, po.ra, po.pod) ELSE C
+\* (terminated branch: when the update replaces the pod by a re-created one, the old pod is released too)
 hPodSet(C, hasOld, old, new) ==
-    IF new.dead THEN hPodGone(C, new)
+    IF new.dead THEN hPodGone(IF hasOld /\ old.pod # new.pod /\ old.pnode # "" THEN hPodGone(C, old) ELSE C, new)
     ELSE IF new.pnode = "" THEN (IF hasOld /\ old.pnode # "" THEN hPodGone(C, old) ELSE C)
     ELSE IF (hasOld /\ old.ra # "") \/ new.ra # ""
-         THEN cUpdatePod(C, IF hasOld THEN old.ra ELSE "", new.ra, hasOld, new.pod, new.req) ELSE C
+         THEN cUpdatePod(C, IF hasOld THEN old.ra ELSE "", new.ra, hasOld, old.pod, new.pod, new.req) ELSE C
 
 \* match (BeforePreFilter walks matchableOnNode) and nominate (NominateReservation)
-QPod(p) == [pod |-> p, ns |-> PodAttr[p].ns, app |-> PodAttr[p].app, ctrl |-> PodAttr[p].ctrl]
+QPod(p) == [pod |-> p, name |-> p, ns |-> PodAttr[p].ns, app |-> PodAttr[p].app, ctrl |-> PodAttr[p].ctrl]
 AffOK(aff, u) == aff \in {"", "sel"} \/ aff = u          \* aff = a uid: affinity by reservation name
 MatchSet(p, n, aff) == {u \in matchable[n] \cap DOMAIN cinfo : OwnerSat(cinfo[u].o, QPod(p)) /\ AffOK(aff, u)}
 OnceGate(u) == cinfo[u].o.once /\ DOMAIN cinfo[u].pods # {}                        \* FilterNominateReservation
@@ -237,6 +239,17 @@ PodEdit(p, req, ra, dead) == /\ p \in DOMAIN papi /\ papi[p].pnode # "" /\ (papi
                              /\ papi' = [papi EXCEPT ![p].req = req, ![p].ra = ra, ![p].dead = dead]
                              /\ Both(PodSetF(Cur, TRUE, PO(p, papi[p]), PO(p, papi'[p])), hPodSet(CC, TRUE, PO(p, papi[p]), PO(p, papi'[p])))
                              /\ Emit(<<PUpd(p, papi[p], papi'[p])>>) /\ UNCHANGED <<api, asm, pasm>>
+\* a bound pod is deleted and re-created (bound; running or already terminated) and a re-list merges both into ONE update
+\* event whose old and new objects are different pods; the cache keys on uids only, so the re-created pod is simply
+\* another pod id here
+PodReplace(p, q, req, ra, dead) ==
+                             /\ p \in DOMAIN papi /\ papi[p].pnode # "" /\ ~papi[p].dead
+                             /\ q # p /\ q \notin DOMAIN papi /\ q \notin DOMAIN pasm
+                             /\ LET new == [pnode |-> papi[p].pnode, ra |-> ra, req |-> req, dead |-> dead]
+                                IN /\ papi' = WithKey(Without(papi, p), q, new)
+                                   /\ Both(PodSetF(Cur, TRUE, PO(p, papi[p]), PO(q, new)), hPodSet(CC, TRUE, PO(p, papi[p]), PO(q, new)))
+                                   /\ Emit(<<[op |-> "podUpdate", old |-> PFields(p, papi[p])] @@ PFields(q, new)>>)
+                             /\ UNCHANGED <<api, asm, pasm>>
 PodDelete(p) == /\ p \in DOMAIN papi
                 /\ papi' = Without(papi, p)
                 /\ Both(PodGoneF(Cur, PO(p, papi[p])), hPodGone(CC, PO(p, papi[p])))
@@ -258,6 +271,7 @@ NextP == \E p \in Pods :
             \/ \E req \in Reqs : \/ PBindFail(p, req)
                                   \/ \E n \in Nodes \cup {""}, ra \in Uids \cup {""} : PodCreate(p, req, n, ra)
                                   \/ \E ra2 \in Uids \cup {""}, dead \in DeadVals : PodEdit(p, req, ra2, dead)
+                                  \/ \E q \in Pods, ra3 \in Uids \cup {""}, dead3 \in BOOLEAN : PodReplace(p, q, req, ra3, dead3)
             \/ \E u \in Uids : Assume(p, u)
             \/ PBindOK(p)
             \/ PodDelete(p)
@@ -267,6 +281,7 @@ Spec == Init0 /\ [][Next]_<<mvars, hist>>
 
 (********************************** menus ***********************************)
 Own(sel, obj, ctrl) == [sel |-> sel, obj |-> obj, objNs |-> "", ctrl |-> ctrl, ctrlNs |-> ""]
+OwnCtrlNs(ctrl, ns) == [Own("", "", ctrl) EXCEPT !.ctrlNs = ns]      \* a controller of ONE namespace
 Anyone == <<Own("", "", "")>>
 SpecOf(policy, once, alloc, ropts, reserved, owners, bad) ==
     [policy |-> policy, once |-> once, alloc |-> alloc, ropts |-> ropts, reserved |-> reserved, owners |-> owners, bad |-> bad]
@@ -279,10 +294,12 @@ LedgerSpecs1 == {SpecOf("Restricted", FALSE, a, ro, <<>>, Anyone, FALSE) :
 IndexSpecs == {SpecOf("Aligned", once, [cpu |-> 2], <<>>, <<>>, Anyone, FALSE) : once \in BOOLEAN}
 \* owners
 MatchSpecs == {SpecOf("Aligned", FALSE, [cpu |-> 2], <<>>, <<>>, ow, FALSE) :
-                   ow \in {<<Own("a", "", "")>>, <<Own("", "p2", "")>>, <<Own("b", "", "rs1")>>, <<>>}}
+                   ow \in {<<Own("a", "", "")>>, <<Own("", "p2", "")>>, <<Own("b", "", "rs1")>>, <<>>,
+                           <<OwnCtrlNs("rs1", "ns1")>>, <<OwnCtrlNs("rs1", "ns2")>>}}
               \cup {SpecOf("Aligned", FALSE, [cpu |-> 2], <<>>, <<>>, Anyone, TRUE),
                     SpecOf("Aligned", TRUE, [cpu |-> 2], <<>>, <<>>, <<Own("a", "", ""), Own("", "p2", "")>>, FALSE)}
-MatchSpecsQ == {SpecOf("Aligned", FALSE, [cpu |-> 2], <<>>, <<>>, ow, FALSE) : ow \in {<<Own("a", "", "")>>, <<Own("b", "", "rs1")>>, <<>>}}
+MatchSpecsQ == {SpecOf("Aligned", FALSE, [cpu |-> 2], <<>>, <<>>, ow, FALSE) :
+                    ow \in {<<Own("a", "", "")>>, <<Own("b", "", "rs1")>>, <<>>, <<OwnCtrlNs("rs1", "ns1")>>}}
                \cup {SpecOf("Aligned", TRUE, [cpu |-> 2], <<>>, <<>>, <<Own("a", "", ""), Own("", "p2", "")>>, FALSE)}
 \* simulation: everything together, plus inner-reserved amounts and pod slots
 SimSpecs == LedgerSpecs \cup IndexSpecs \cup MatchSpecs
